@@ -890,9 +890,68 @@ def roottimes():
     return dt_src, dt_in_loop, formula, n_tr_loops
 
 
+SCALE_SITE_FILES = ["direct_collocation.py", "multiple_shooting.py", "single_shooting.py", "direct_method.py", "sampling_method.py"]
+# what the first argument of opti.variable(...) is built from -> (kind, the scale expression the site must hand to Opti)
+SCALE_SITE_KINDS = [("stage.nx", "x", "scale_x"), ("stage.nz", "z", "scale_z"), ("stage.nu", "u", "scale_u"),
+                    ("s.numel()", "symbol", "stage._scale[s]"), ("v.shape[0]", "variable", "stage._scale[v]")]
+
+
+def scalesites():
+    """every `opti.variable(...)` call of the transcription methods that creates decision variables for DECLARED symbols (states,
+    algebraic variables, controls, variables): which kind it is and whether it carries the scale of that kind"""
+    rows = []
+    for f in SCALE_SITE_FILES:
+        tree = ast.parse(open(os.path.join(REPO, "rockit", f)).read())
+        for cls in [n for n in tree.body if isinstance(n, ast.ClassDef)]:
+            for fn in [n for n in cls.body if isinstance(n, ast.FunctionDef)]:
+                for n in ast.walk(fn):
+                    if not (isinstance(n, ast.Call) and isinstance(n.func, ast.Attribute) and n.func.attr == "variable"
+                            and isinstance(n.func.value, ast.Name) and n.func.value.id == "opti"):
+                        continue
+                    first = _norm(ast.unparse(n.args[0])) if n.args else ""
+                    kind, want = "other", ""
+                    for token, k, w in SCALE_SITE_KINDS:
+                        if token in first:
+                            kind, want = k, w
+                            break
+                    sc = [kw for kw in n.keywords if kw.arg == "scale"]
+                    sc_src = _norm(ast.unparse(sc[0].value)) if sc else ""
+                    ok = bool(want) and want in sc_src
+                    rows.append((f[:-3], cls.name + "." + fn.name, n.lineno, kind, first, sc_src, ok))
+    L = ["/-! GENERATED by tools/extract.py from /repo/rockit/{%s} — do not edit. -/" % ",".join(SCALE_SITE_FILES),
+         "namespace Rockit.Generated", "",
+         "/-- one `opti.variable(...)` call of a transcription method: (module, function, kind of declared symbol it creates decision",
+         "variables for (`other`: time and helper variables), first argument, the `scale=` argument as written, whether that is the",
+         "scale of the kind) -/",
+         "structure VariableSite where",
+         "  file : String", "  fn : String", "  kind : String", "  shape : String", "  scale : String", "  scaled : Bool",
+         "  deriving Repr, DecidableEq", "",
+         "def variableSites : List VariableSite := ["]
+    L.append(",\n".join('  { file := "%s", fn := "%s", kind := "%s", shape := "%s", scale := "%s", scaled := %s }' %
+                         (f, fn, k, first.replace('"', "'"), sc.replace('"', "'"), str(ok).lower()) for f, fn, _ln, k, first, sc, ok in rows))
+    L += ["]", ""]
+    # the local names the collocation sites use: what they are bound to in DirectCollocation.add_variables
+    tree = ast.parse(open(os.path.join(REPO, "rockit", "direct_collocation.py")).read())
+    fn = _find_function(tree, "DirectCollocation", "add_variables")
+    binds = []
+    if fn is not None:
+        for st in ast.walk(fn):
+            if isinstance(st, ast.Assign) and len(st.targets) == 1 and isinstance(st.targets[0], ast.Name) and st.targets[0].id.startswith("scale_"):
+                binds.append((st.targets[0].id, _norm(ast.unparse(st.value))))
+    L += ["/-- what the local names `scale_x`, `scale_z`, `scale_u` of `DirectCollocation.add_variables` are bound to (every assignment) -/",
+          "def scaleLocals : List (String × String) := [" + ", ".join('("%s", "%s")' % b for b in binds) + "]", "",
+          "end Rockit.Generated", ""]
+    path = os.path.join(OUT, "Scales.lean")
+    new_src = "\n".join(L)
+    if not os.path.exists(path) or open(path).read() != new_src:
+        open(path, "w").write(new_src)
+    return rows
+
+
 def main():
     rows = _main_inval()
     roottimes()
+    scalesites()
     guards()
     infcert()
     clonetable()
